@@ -227,6 +227,7 @@ class Assembled:
         self.fn_ranges = []      # (start, end, fnkey)
         self.fn_bodies = {}      # fnkey -> body text (for the callee scan)
         self.lost_contracts = []   # contract keys without a function in the tree
+        self.auto_contracts = []   # functions without contract whose body is one pure expression: `ensures r == body` generated and verified
         self.calls_uncontracted = {}   # fnkey -> [uncontracted callee keys it mentions]
         self.contracted = []     # fn keys with a contract
         self.uncontracted = []   # fn keys without
@@ -338,7 +339,7 @@ def assemble(vacuity=False, only_files=None, extra_theorems=True, extracted=None
             body_rest = "\n    unimplemented!()\n}"
             if c is not None:
                 used_fn_contracts.add(key)
-            if key in drop_contract:
+            if key in drop_contract or c is None:
                 A.uncontracted.append(key)     # its callers' failures are "needs contract"
             A.add("#[verifier::external_body] /*REFUSED: body outside the extraction rules or not type-checkable; contract assumed*/")
         elif dup:
@@ -351,7 +352,22 @@ def assemble(vacuity=False, only_files=None, extra_theorems=True, extracted=None
             else:
                 A.contracted.append(key)
         else:
-            A.uncontracted.append(key)
+            # a function without contract (new to the tree).  If its body is ONE side-effect-free expression, the strongest postcondition is the
+            # body itself: `ensures r == <body>` is generated and VERIFIED against the body like any other clause (nothing is assumed).  If Verus
+            # cannot read the expression in spec mode the generated contract fails to type-check and is dropped again (drop_contract).
+            expr = body_rest.strip()
+            expr = expr[:-1].strip() if expr.endswith("}") else expr
+            simple = ret_named and expr and key not in drop_contract and key not in force_external and not in_trait_impl_from \
+                and not re.search(r";|\breturn\b|\bmatch\b|\bif\b|\bfor\b|\bwhile\b|\bloop\b|\bunimplemented\b|\bunreached\b|&mut\b|__loop__|\?", expr) \
+                and "&mut" not in head and "[From<" not in key
+            if simple:
+                c = Contract(key)
+                c.ensures = [("auto", "r == (" + expr + ")")]
+                c.auto = True
+                A.contracted.append(key)
+                A.auto_contracts.append(key)
+            else:
+                A.uncontracted.append(key)
         A.add(head.rstrip())
         if c is not None:
             if c.requires:
